@@ -1,4 +1,104 @@
-/- dsmodel_bounds: model driver stub (filled in when the family is built). -/
-def main (_args : List String) : IO UInt32 := do
-  IO.eprintln "dsmodel_bounds: not built yet"
-  return 2
+/- dsmodel_bounds: model driver for the estimator / confidence-bound functions (C06).
+   Every op line is a pure function evaluation (`Float` instance of the generic model, tables from DSGen);
+   sketch observations carry the register state read from the implementation as explicit arguments. -/
+import DSModel.Bounds.Binomial
+import DSModel.Bounds.HllEst
+import DSModel.Bounds.CpcEst
+import DSModel.DriverLoop
+import DSModel.Util
+import DSModel.Bounds.GenTables
+open DS DS.Bounds
+
+def pf (o : Option Float) : String := match o with
+  | some x => hexF x
+  | none => "throw"
+
+def fOfHex (s : String) : Option Float := (parseHex s).map fun n => Float.ofBits (UInt64.ofNat n)
+
+def k123 : List Nat := [1, 2, 3]
+
+def thetaLine (tag : String) (s : ThetaState) : String :=
+  let est : Float := thetaEstimate maxTheta s
+  let lbs := k123.map fun k => pf (thetaLowerBound binomT maxTheta s k)
+  let ubs := k123.map fun k => pf (thetaUpperBound binomT maxTheta s k)
+  joinSp ([tag, hexF est] ++ lbs ++ ubs)
+
+def tupleLine (s : ThetaState) (subset : Nat) : String :=
+  let slbs := k123.map fun k => pf (tupleLowerBound (α := Float) binomT maxTheta s k subset)
+  let subs := k123.map fun k => pf (tupleUpperBound (α := Float) binomT maxTheta s k subset)
+  joinSp ([thetaLine "U" s] ++ slbs ++ subs)
+
+def hllLine (s : HllReg Float) : String :=
+  let lbs := k123.map fun k => pf (hllLowerBound hllT s k)
+  let ubs := k123.map fun k => pf (hllUpperBound hllT s k)
+  joinSp (["H", pf (hllEstimate hllT s), pf (hllCompositeEstimate hllT s)] ++ lbs ++ ubs)
+
+def couponLine (count : Nat) : String :=
+  let e := pf (couponEstimate (α := Float) hllT count)
+  let lbs := k123.map fun k => pf (couponLowerBound (α := Float) hllT count k)
+  let ubs := k123.map fun k => pf (couponUpperBound (α := Float) hllT count k)
+  joinSp (["H", e, e] ++ lbs ++ ubs)
+
+def cpcLine (s : CpcState Float) : String :=
+  let lbs := k123.map fun k => pf (cpcLowerBound cpcT s k)
+  let ubs := k123.map fun k => pf (cpcUpperBound cpcT s k)
+  joinSp (["P", pf (cpcEstimate cpcT s)] ++ lbs ++ ubs)
+
+def parseReg (lgk curmin nacm kxq0 kxq1 hip ooo : String) : Option (HllReg Float) :=
+  match lgk.toNat?, curmin.toNat?, nacm.toNat?, fOfHex kxq0, fOfHex kxq1, fOfHex hip, ooo.toNat? with
+  | some lgk, some cm, some na, some q0, some q1, some h, some o =>
+    some { lgK := lgk, curMin := cm, numAtCurMin := na, kxq0 := q0, kxq1 := q1, hip := h, ooo := o != 0 }
+  | _, _, _, _, _, _, _ => none
+
+def step (w : List String) : String :=
+  match w with
+  | ["bb", n, th, k] =>
+    match n.toNat?, fOfHex th, k.toNat? with
+    | some n, some th, some k => joinSp ["B", pf (getLowerBound binomT n th k), pf (getUpperBound binomT n th k)]
+    | _, _, _ => "bad-op"
+  | ["tobs", _, th64, n, empty] =>
+    match th64.toNat?, n.toNat?, empty.toNat? with
+    | some t, some n, some e => thetaLine "T" { theta64 := t, retained := n, empty := e != 0 }
+    | _, _, _ => "bad-op"
+  | ["uobs", _, th64, n, empty, subset] =>
+    match th64.toNat?, n.toNat?, empty.toNat?, subset.toNat? with
+    | some t, some n, some e, some sub => tupleLine { theta64 := t, retained := n, empty := e != 0 } sub
+    | _, _, _, _ => "bad-op"
+  | ["relerr", ub, ooo, lgk, sd] =>
+    match ub.toNat?, ooo.toNat?, lgk.toNat?, sd.toNat? with
+    | some ub, some ooo, some lgk, some sd => joinSp ["R", pf (hllRelErr (α := Float) hllT (ub != 0) (ooo != 0) lgk sd)]
+    | _, _, _, _ => "bad-op"
+  | ["hreg", lgk, curmin, nacm, kxq0, kxq1, hip, ooo] =>
+    match parseReg lgk curmin nacm kxq0 kxq1 hip ooo with
+    | some s => hllLine s
+    | none => "bad-op"
+  | ["hobs", _, "HLL", lgk, curmin, nacm, kxq0, kxq1, hip, ooo] =>
+    match parseReg lgk curmin nacm kxq0 kxq1 hip ooo with
+    | some s => hllLine s
+    | none => "bad-op"
+  | ["hobs", _, _, _, count] =>          -- LIST / SET mode: only the coupon count matters
+    match count.toNat? with
+    | some c => couponLine c
+    | none => "bad-op"
+  | ["cubic", x] =>
+    match fOfHex x with
+    | some x => joinSp ["C", pf (usingXAndYTables hllT.cubicX hllT.cubicY x)]
+    | none => "bad-op"
+  | ["bitmap", k, hit] =>
+    match k.toNat?, hit.toNat? with
+    | some k, some hit => joinSp ["M", hexF (bitMapEstimate hllT k hit)]
+    | _, _ => "bad-op"
+  | ["icon", lgk, c] =>
+    match lgk.toNat?, c.toNat? with
+    | some lgk, some c => joinSp ["I", pf (iconEstimate (α := Float) cpcT lgk c)]
+    | _, _ => "bad-op"
+  | ["cobs", _, lgk, c, hip, merged] =>
+    match lgk.toNat?, c.toNat?, fOfHex hip, merged.toNat? with
+    | some lgk, some c, some h, some m => cpcLine { lgK := lgk, numCoupons := c, hip := h, merged := m != 0 }
+    | _, _, _, _ => "bad-op"
+  | _ => "ok"      -- construction / update ops of real sketches: no model state
+
+def main (args : List String) : IO UInt32 := do
+  match args with
+  | ["bounds"] => runDriver () (fun _ w => ((), step w))
+  | _ => IO.eprintln "usage: dsmodel_bounds bounds"; return 2
